@@ -505,6 +505,14 @@ func (c *Ctx) sameTypeCallGraph(n *types.Named) map[string]map[string]bool {
 					}
 				}
 			}
+			// a method value of the receiver handed on (visit(values, v.ContainsValue))
+			if se, ok := x.(*ast.SelectorExpr); ok && isObj(info, se.X, recv) {
+				if sel, ok := info.Selections[se]; ok && sel.Kind() == types.MethodVal {
+					if fn, ok := sel.Obj().(*types.Func); ok && recvNamed(fn) != nil && recvNamed(fn).Origin() == n.Origin() {
+						g[name][fn.Name()] = true
+					}
+				}
+			}
 			return true
 		})
 	}
